@@ -288,3 +288,21 @@ func DelegParams(s, o int, assetAddr []byte, amount sdkmath.Int, nonce uint64) *
 }
 
 var _ = sdk.AccAddress{}
+
+// NewPlainLedger: ledger with no delegation entries/pools pre-populated except what AddRecord
+// creates; staker rows exist with symbolic withdrawable balances. Used where the step under test
+// only touches pending records and aggregates.
+func NewPlainLedger(e *Env, ns, no int, assetID string, maxBits int) *Ledger {
+	max := sdkmath.NewInt(1)
+	for i := 0; i < maxBits; i++ {
+		max = max.MulRaw(2)
+	}
+	l := &Ledger{E: e, NS: ns, NO: no, AssetID: assetID, Max: max}
+	for s := 0; s < ns; s++ {
+		l.Assoc = append(l.Assoc, -1)
+		w := l.amt(nm("withdrawable_s%d", s))
+		d := l.amt(nm("deposit_s%d", s))
+		e.PutStakerAsset(s, assetID, assetstypes.StakerAssetInfo{TotalDepositAmount: d, WithdrawableAmount: w, PendingUndelegationAmount: sdkmath.ZeroInt()})
+	}
+	return l
+}
